@@ -463,7 +463,7 @@ Proof.
   apply NoDup_incl_length; [exact ND|]. intros b Hb. apply in_seq. pose proof (oaddrs_in_heap t h oa p b R Hb). lia.
 Qed.
 
-Theorem clone_from_root_spec t h root node :
+Theorem clone_from_root_full t h root node :
   rep h (Some root) None t -> NoDup (oaddrs h (Some root) t) -> In node (oaddrs h (Some root) t) ->
   (forall b n, In b (oaddrs h (Some root) t) -> b <> node -> nth_error h b = Some n -> dead (h_ct n)) ->
   exists h' k,
@@ -472,7 +472,9 @@ Theorem clone_from_root_spec t h root node :
     nth_error (oaddrs h' (Some (length h)) t) k = Some (length h + k) /\      (* ... and the result is the k-th node of the copy *)
     rep h' (Some (length h)) None t /\                                        (* which is a complete copy of the whole tree *)
     rep h' (Some root) None t /\                                              (* the original is intact *)
-    length h' = length h + size t.
+    length h' = length h + size t /\
+    oaddrs h' (Some (length h)) t = seq (length h) (size t) /\                (* the copy occupies exactly the fresh addresses *)
+    oaddrs h' (Some root) t = oaddrs h (Some root) t.                         (* the original its old ones *)
 Proof.
   intros R ND Hin DD. set (addrs := oaddrs h (Some root) t) in *.
   pose proof (size_le_heap _ _ _ _ R ND) as SZ. pose proof (rep_some_not_AE _ _ _ _ R) as NE.
@@ -524,5 +526,21 @@ Proof.
   - rewrite OL. assert (k < size t) by (rewrite <- (oaddrs_length t h (Some root) None R); apply nth_error_Some; fold addrs; congruence).
     rewrite nth_error_nth' with (d := 0) by (rewrite seq_length; lia). now rewrite seq_nth.
   - eapply rep_ext; [apply ext_app|]. eapply rep_sext; eauto.
-  - rewrite app_length, layout_length. lia.
+  - split; [rewrite app_length, layout_length; lia|]. split; [exact OL|].
+    rewrite (oaddrs_ext t old (old ++ layout (length h) None t) (Some root) None (ext_app old _) (rep_sext _ _ _ _ _ So R)).
+    apply (oaddrs_sext t h old _ None So R).
+Qed.
+Theorem clone_from_root_spec t h root node :
+  rep h (Some root) None t -> NoDup (oaddrs h (Some root) t) -> In node (oaddrs h (Some root) t) ->
+  (forall b n, In b (oaddrs h (Some root) t) -> b <> node -> nth_error h b = Some n -> dead (h_ct n)) ->
+  exists h' k,
+    clone_from_root h node = HOk (h', length h + k) /\
+    nth_error (oaddrs h (Some root) t) k = Some node /\                       (* node is the k-th node of the original in pre-order ... *)
+    nth_error (oaddrs h' (Some (length h)) t) k = Some (length h + k) /\      (* ... and the result is the k-th node of the copy *)
+    rep h' (Some (length h)) None t /\                                        (* which is a complete copy of the whole tree *)
+    rep h' (Some root) None t /\                                              (* the original is intact *)
+    length h' = length h + size t.
+Proof.
+  intros R ND Hin DD. destruct (clone_from_root_full t h root node R ND Hin DD) as (h' & k & A1 & A2 & A3 & A4 & A5 & A6 & _).
+  exists h', k. auto 10.
 Qed.
